@@ -1,5 +1,11 @@
 //! vengine <ID> [quick|thorough]  |  vengine <ID> --replay <file>
+mod graphs;
+mod hist;
+mod oracle;
 mod paths;
+mod reg;
+mod retain;
+mod tables;
 mod wire;
 
 use vcommon::evidence::{silence_panics, tier_from_env_or};
@@ -19,6 +25,7 @@ fn main() {
         let code = match id {
             "C18" => paths::replay(&body),
             "C06" | "C07" | "C08" => wire::replay(id, &body),
+            "C01" | "C02" | "C05" | "C10" | "C11" | "C12" => reg::replay(id, &body),
             _ => {
                 eprintln!("no replay for {id}");
                 2
@@ -31,6 +38,12 @@ fn main() {
     let code = match id {
         "C18" => paths::run(thorough),
         "C06" | "C07" | "C08" => wire::run(id, thorough),
+        "C01" => reg::run("C01", thorough),
+        "C02" => reg::run("C02", thorough),
+        "C05" => reg::run("C05", thorough),
+        "C10" => reg::run("C10", thorough),
+        "C11" => reg::run("C11", thorough),
+        "C12" => reg::run("C12", thorough),
         _ => {
             eprintln!("unknown property {id}");
             2
